@@ -20,12 +20,16 @@ import tempfile
 ROOT = os.path.dirname(os.path.dirname(os.path.abspath(__file__)))
 
 
+class CanaryError(Exception):
+    pass
+
+
 def apply_edits(root: str, edits: list[dict]) -> None:
     for e in edits:
         p = os.path.join(root, e["file"])
         s = open(p).read()
         if s.count(e["old"]) != 1:
-            raise RuntimeError(f"canary edit does not apply exactly once in {e['file']}: {e['old'][:60]!r} ({s.count(e['old'])}x)")
+            raise CanaryError(f"canary edit does not apply exactly once in {e['file']}: {e['old'][:60]!r} ({s.count(e['old'])}x)")
         open(p, "w").write(s.replace(e["old"], e["new"]))
 
 
@@ -82,6 +86,8 @@ def main(argv) -> int:
                 saved[ep] = open(ep).read()
         try:
             r = run_one(f, a.runs, a.tests)
+        except CanaryError as exc:
+            r = {"name": os.path.basename(f), "ok": False, "error": str(exc)}
         finally:
             for ep, txt in saved.items():
                 open(ep, "w").write(txt)
